@@ -71,6 +71,12 @@ def asFloatLike (x ref : DTy) : DTy :=
   | err => err
   | _ => floatDType ref
 
+/-- `x.astype(float32 if all of a b c d are float32 else float64)` -/
+def asCommon4 (x a b c d : DTy) : DTy :=
+  match x with
+  | err => err
+  | _ => if a = f32 ∧ b = f32 ∧ c = f32 ∧ d = f32 then f32 else f64
+
 end DTy
 
 /-! ## the operations of scipp used by the kernels that are not notation classes -/
@@ -86,8 +92,10 @@ class Scipp (α : Type) where
   i64 : Nat → α
   /-- `sc.scalar(0.5)` -/
   half : α
+  /-- `x.astype(float32 if all four reference operands are float32 else float64)` -/
+  asCommon4 : α → α → α → α → α → α
 
-export Scipp (asFloatLike sq sqSame i64 half)
+export Scipp (asFloatLike sq sqSame i64 half asCommon4)
 
 instance : Add DTy := ⟨DTy.arith⟩
 instance : Sub DTy := ⟨DTy.arith⟩
@@ -108,6 +116,7 @@ instance : Scipp DTy where
   sqSame := fun x => DTy.powT x x
   i64 := fun _ => .i64
   half := .f64
+  asCommon4 := DTy.asCommon4
 
 /-! ## dynamically typed scalars: the executable carrier -/
 
@@ -181,6 +190,7 @@ instance : Scipp Val where
   sqSame := fun x => Val.bin (DTy.powT x.dty x.dty) (· * ·) (· * ·) (· * ·) x x
   i64 := fun n => .i64 n
   half := .f64 0.5
+  asCommon4 := fun x a b c d => Val.cast (DTy.asCommon4 x.dty a.dty b.dty c.dty d.dty) x
 
 /-! ## the kernels -/
 
@@ -203,15 +213,15 @@ def wavelengthFromTof (c tof Ltotal : α) : α := asFloatLike (c / Ltotal) tof *
 /-- `sc.to_unit(2 * m_n / h, unit(tof) / angstrom / unit(Ltotal))` -/
 def cDspacingFromTof (h mn sA sL sT : α) : α := toUnitC (i64 2 * mn / h) (sT / sA / sL)
 
-/-- `dspacing_from_tof`: `1 / as_float_type(c * Ltotal * sin(two_theta / 2), tof) * tof` -/
+/-- `dspacing_from_tof`: `1 / as_float_type(c * Ltotal * sin(as_float_type(two_theta, tof) / 2), tof) * tof` -/
 def dspacingFromTof (c sAng tof Ltotal twoTheta : α) : α :=
-  i64 1 / asFloatLike (c * Ltotal * sinU (twoTheta / i64 2) sAng) tof * tof
+  i64 1 / asFloatLike (c * Ltotal * sinU (asFloatLike twoTheta tof / i64 2) sAng) tof * tof
 
 /-- `_energy_constant(energy_unit, tof, length)`: `to_unit(m_n / 2, energy_unit * (unit(tof)/unit(length))**2)` -/
 def cEnergy (mn sE sL sT : α) : α := toUnitC (mn / i64 2) (sE * sq (sT / sL))
 
-/-- `energy_from_tof`: `as_float_type(c * Ltotal**2, tof) / tof ** scalar(2, dtype=dtype(tof))` -/
-def energyFromTof (c tof Ltotal : α) : α := asFloatLike (c * sq Ltotal) tof / sqSame tof
+/-- `energy_from_tof`: `as_float_type(c * as_float_type(Ltotal, c)**2, tof) / tof ** scalar(2, dtype=dtype(tof))` -/
+def energyFromTof (c tof Ltotal : α) : α := asFloatLike (c * sq (asFloatLike Ltotal c)) tof / sqSame tof
 
 /-- `as_float_type(to_unit(h**2 / 2 / m_n, meV * unit(wavelength)**2), wavelength)` -/
 def cEnergyFromWavelength (h mn sE sW wavelength : α) : α :=
@@ -257,11 +267,12 @@ def cDspacingFromEnergy (h mn sA sE energy : α) : α :=
 def dspacingFromEnergy (c sAng energy twoTheta : α) : α :=
   Trans.sqrt (c / energy) / sinU (asFloatLike twoTheta energy / i64 2) sAng
 
-/-- `time_at_sample_from_tof`: `pulse_time + tof - L2 * wavelength / c` with
-`c = as_float_type(to_unit(h / m_n, angstrom * unit(L2) / unit(tof)), tof)` (the constant of `wavelength_from_tof`,
-in the precision class of `tof`) -/
+/-- `time_at_sample_from_tof`: every operand and the constant
+`c = to_unit(h / m_n, angstrom * unit(L2) / unit(tof))` are first cast to float32 if all four operands are float32,
+else to float64; then `pulse_time + tof - L2 * wavelength / c` -/
 def timeAtSampleFromTof (c pulseTime tof L2 wavelength : α) : α :=
-  pulseTime + tof - L2 * wavelength / asFloatLike c tof
+  let k := fun (x : α) => asCommon4 x pulseTime tof L2 wavelength
+  k pulseTime + k tof - k L2 * k wavelength / k c
 
 /-- one component of `Q_elements_from_wavelength`: `as_float_type(k * e, wavelength)` with `k = 2π / wavelength` and
 `e` a component of `incident_beam/|incident_beam| - scattered_beam/|scattered_beam|` (float64: vector elements) -/
